@@ -44,9 +44,11 @@ RULE = ('two generators. (t4) synthetic Tripoli-4 listing: 1-4 editions (increas
         'positive / negative / mixed / with zeros; all printed numbers pairwise distinct. Oracle: '
         'float(printed token), value*sigma%*0.01 within 2 ulp, sorted printed boundaries. (ap3) HDF5 '
         'file in the documented layout: 1-3 outputs with NG 1-6, totaloutput scalars/arrays/surface '
-        'results/local values, 0-4 zones with 0-3 isotopes (reactions, anisotropic results with '
-        'info/nbAnisotropy), macro group, or a user file with local values (flat or localvalue '
-        'group); oracle: independent h5py reference reader + Reader-vs-Picker differential. Shipped '
+        'results (NSURF 1-3)/local values (flat with NVAL, or localvalue group), 0-4 zones with 0-3 '
+        'isotopes (reactions, anisotropic results with info/nbAnisotropy 1-4), macro group with '
+        'per-result info, float32/float64, default or zero error value, or a user file with local '
+        'values (flat or localvalue group); oracle: independent h5py reference reader + '
+        'Reader-vs-Picker differential (value, error, bins, what). Shipped '
         'listings / HDF5 files are enumerated. non-trivial: t4 = >=2 editions or a decreasing group '
         'order or a negative / zero / not-converged result; ap3 = >=2 zones and an isotope with an '
         'anisotropic result; distinct = structural hash of the case')
@@ -57,14 +59,14 @@ ASSUMPTIONS = [
     'NOT YET CONVERGED is generated for the energy-integrated line of score blocks only (the only '
     'place where the covered layouts show it), for all time steps of a score at once',
     'error oracle: |error - value*sigma%*0.01| <= 2 ulp; values and bins are compared exactly',
-    'Apollo3: anisotropic results have nbAnisotropy >= 2 (size NG*n), NSURF >= 2; a (1,)-shaped '
+    'Apollo3: a result of size NG is expected with shape (NG,) whatever nbAnisotropy says; a (1,)-shaped '
     'stored scalar is expected back as a scalar from the Reader (documented for KEFF-like values and '
     'asserted by the test-suite for local values)',
     'h5py is trusted as the reference reader of what is stored',
 ]
 BUDGET = {'quick': {'cases': 4000, 'shards': 16, 'seconds': 150,
                     'shrink_s': int(os.environ.get('VERIF_SHRINK_S') or 25)},
-          'thorough': {'cases': 120000, 'shards': 16, 'seconds': 840, 'shrink_s': 60}}
+          'thorough': {'cases': 100000, 'shards': 16, 'seconds': 780, 'shrink_s': 60}}
 FLOORS = {'t4': 0.4, 'ap3': 0.25, 't4:editions>=2': 0.2, 't4:e-decreasing': 0.15,
           't4:t-steps': 0.1, 't4:t-decreasing': 0.04, 't4:negative': 0.15, 't4:zero': 0.1,
           't4:not-converged': 0.08, 't4:access-index': 0.15, 't4:no-edition-line': 0.05,
@@ -129,7 +131,7 @@ def _t4_case(draw):
 
 @st.composite
 def _ap3_iso(draw):
-    naniso = draw(st.sampled_from([0, 0, 2, 3, 4]))
+    naniso = draw(st.sampled_from([0, 0, 1, 2, 3, 4]))
     return {'name': draw(st.integers(0, len(ap3gen.ISOTOPE_NAMES) - 1)),
             'reacs': draw(st.lists(st.integers(0, 5), min_size=1, max_size=4)),
             'naniso': naniso, 'nareac': draw(st.integers(1, 2))}
@@ -139,7 +141,7 @@ def _ap3_iso(draw):
 def _ap3_zone(draw):
     macro = draw(st.one_of(st.none(), st.fixed_dictionaries({
         'reacs': st.lists(st.integers(0, 5), min_size=1, max_size=4),
-        'naniso': st.sampled_from([0, 0, 2, 3]), 'nareac': st.integers(1, 2),
+        'naniso': st.sampled_from([0, 0, 1, 2, 3]), 'nareac': st.integers(1, 2),
         'info1': st.booleans()})))
     return {'flux': draw(st.sampled_from([True, True, False])),
             'isos': draw(st.lists(_ap3_iso(), min_size=0, max_size=3)), 'macro': macro}
@@ -150,7 +152,7 @@ def _ap3_output(draw):
     local = draw(st.sampled_from([None, None, 'flat', 'group']))
     total = {'scalars': draw(st.lists(st.integers(0, 1), max_size=2)),
              'arrays': draw(st.lists(st.integers(0, 2), max_size=3)),
-             'nsurf': draw(st.sampled_from([0, 0, 2, 3])), 'local': local,
+             'nsurf': draw(st.sampled_from([0, 0, 0, 1, 2, 3])), 'local': local,
              'local_sizes': draw(st.lists(st.sampled_from([1, 1, 2, 5]), min_size=1, max_size=3))}
     zones = draw(st.lists(_ap3_zone(), min_size=0, max_size=4))
     return {'ng': draw(st.integers(1, 6)), 'total': total, 'zones': zones,
@@ -162,7 +164,8 @@ def _ap3_output(draw):
 def _ap3_case(draw):
     layout = draw(st.sampled_from(['std', 'std', 'std', 'std', 'user_flat', 'user_group']))
     case = {'kind': 'ap3', 'layout': layout, 'seed': draw(st.integers(0, 99)),
-            'f64': draw(st.booleans()), 'comment': draw(st.booleans())}
+            'f64': draw(st.booleans()), 'comment': draw(st.booleans()),
+            'err0': draw(st.sampled_from([False, False, True]))}
     if layout == 'std':
         case['outputs'] = draw(st.lists(_ap3_output(), min_size=1, max_size=3))
     else:
@@ -507,7 +510,6 @@ def _run_t4_truth(out, truth, accesses):
     out.labels += sorted('t4:' + f for f in feats)
     out.nontrivial = bool(feats & {'editions>=2', 'e-decreasing', 't-decreasing', 'negative', 'zero',
                                    'not-converged'})
-    excfeat = 'time+nc' if 'not-converged-in-time-steps' in feats else ''
     text = t4emit.emit(truth)
     tmpdir = tempfile.mkdtemp(prefix='c10-', dir=TMPROOT)
     try:
@@ -538,7 +540,7 @@ def _run_t4_truth(out, truth, accesses):
                     pres = parser.parse_from_number(edition['batch'])
                 browser = pres.to_browser()
             except Exception as exc:   # every edition of an in-domain listing must be readable
-                out.failures.append(exc_failure('t4_parse_raises', exc, excfeat))
+                out.failures.append(exc_failure('t4_parse_raises', exc))
                 continue
             if browser.globals.get('batch_number') != edition['batch']:
                 # not the requested edition: the other clauses (stated for the requested
@@ -659,18 +661,27 @@ def _ds_same(one, two):
     return diffs
 
 
-def _run_ap3_path(out, path, tag):
+def _single_surface(ref):
+    return ref['result_name'] in ('surfflux', 'current') and np.shape(ref['value'])[1] == 1
+
+
+def _ap3_cause(refs):
+    """Cause feature of a failure of the whole load, computed from the input file."""
+    return 'nsurf=1' if any(_single_surface(r) for r in refs) else ''
+
+
+def _run_ap3_path(out, path, tag, err0=False):
     refs = ap3gen.reference_items(path)
     aux = sorted(set(ap3gen.AUX))
     try:
-        browser = Reader(path).to_browser()
+        browser = (Reader(path, error_value=0) if err0 else Reader(path)).to_browser()
     except Exception as exc:
         named = [a for a in aux if str(exc).rstrip().endswith(' for ' + a)]
         if named:   # an auxiliary dataset of the documented layout taken for a result
             out.failures.append(Failure('ap3_aux_as_result', f'C10/ap3/aux_as_result/{named[0]}',
                                         f'{tag}: {type(exc).__name__}: {exc}'))
         else:
-            out.failures.append(exc_failure('ap3_reader_raises', exc))
+            out.failures.append(exc_failure('ap3_reader_raises', exc, _ap3_cause(refs)))
         return refs
     found = {}
     for item in browser.content:
@@ -696,7 +707,7 @@ def _run_ap3_path(out, path, tag):
                                     f'{tag}: missing {missing[:3]} unexpected {extra[:3]}'))
     picker = None
     try:
-        picker = Picker(path)
+        picker = Picker(path, error_value=0) if err0 else Picker(path)
         for ref in refs:
             key = (ref['output'], ref['zone'], ref['isotope'], ref['result_name'])
             place = ref['place']
@@ -718,7 +729,9 @@ def _run_ap3_path(out, path, tag):
                 else:
                     picked = picker.pick_user_value(**kwargs)
             except Exception as exc:
-                out.failures.append(exc_failure('ap3_pick_raises', exc, place))
+                out.failures.append(exc_failure(
+                    'ap3_pick_raises', exc,
+                    place + ('/nsurf=1' if _single_surface(ref) else '')))
                 continue
             for what, detail in _ds_same(picked, dset):
                 feat = ('local' if ref.get('local') else 'standard') if what == 'what' else place
@@ -741,9 +754,11 @@ def _run_ap3(case, out):
     try:
         path = os.path.join(tmpdir, 'file.hdf')
         ap3gen.write(case, path)
-        refs = _run_ap3_path(out, path, 'generated')
+        refs = _run_ap3_path(out, path, 'generated', bool(case.get('err0')))
     finally:
         shutil.rmtree(tmpdir, ignore_errors=True)
+    if case.get('err0'):
+        out.labels.append('ap3:error_value=0')
     zones = {(r['output'], r['zone']) for r in refs if r['zone'] not in (None, 'totaloutput')}
     per_out = {}
     for outp, _z in zones:
@@ -757,6 +772,8 @@ def _run_ap3(case, out):
         out.labels.append('ap3:local-in-total')
     if any(r['result_name'] in ('current', 'surfflux') for r in refs):
         out.labels.append('ap3:surfaces')
+    if any(_single_surface(r) for r in refs):
+        out.labels.append('ap3:single-surface')
     if any(r.get('stored_shape') == (1,) and r['pick'] is not None for r in refs):
         out.labels.append('ap3:localvalue-group-size1')
     if len({r['output'] for r in refs}) >= 2:
